@@ -330,6 +330,7 @@ func runCheck(ctx *Ctx, ck *Check, auditPath, factsStatus, evidencePath string) 
 	var findings []Finding
 	addFinding := func(f Finding) { findings = append(findings, f) }
 	histStats := map[string]int{}
+	var derived []Derived
 	if ck.Crash {
 		hc, ho, hf, st := runCrashCases(ctx, ck.Prop, r.fork())
 		cases = append(cases, hc...)
@@ -355,7 +356,8 @@ func runCheck(ctx *Ctx, ck *Check, auditPath, factsStatus, evidencePath string) 
 			model = append(model, outs)
 			findings = append(findings, fs...)
 		}
-		hc, ho, hf, st := runHistories(ctx, cfg, r.fork())
+		hc, ho, hf, st, ders := runHistories(ctx, cfg, r.fork())
+		derived = ders
 		cases = append(cases, hc...)
 		impl = append(impl, ho...)
 		model = append(model, ho...) // histories are judged; not compared line by line with the model driver
@@ -414,6 +416,43 @@ func runCheck(ctx *Ctx, ck *Check, auditPath, factsStatus, evidencePath string) 
 				}
 			}
 		}
+	}
+
+	// command-level correspondence: lines derived from the observed CLI transitions are answered by the
+	// Lean command model and compared with what the implementation did
+	derivedCompared, derivedAgree := 0, 0
+	if len(derived) > 0 {
+		var mc []Case
+		for _, d := range derived {
+			mc = append(mc, Case{Name: "derived", Lines: []string{d.Line}})
+		}
+		mo := runModel(ctx, mc)
+		for i, d := range derived {
+			if len(mo[i]) != 1 {
+				continue
+			}
+			derivedCompared++
+			okk := mo[i][0] == d.Impl
+			detail := ""
+			if d.Verify != nil {
+				detail = d.Verify(mo[i][0])
+				okk = detail == ""
+			}
+			if okk {
+				derivedAgree++
+			} else {
+				cc := d.Case
+				n := d.Step + 1
+				if n > len(cc.Lines) {
+					n = len(cc.Lines)
+				}
+				cc.Lines = append(append([]string{}, cc.Lines[:n]...), d.Line)
+				addFinding(Finding{Kind: "correspondence", Clause: "model=impl", Case: cc, Step: len(cc.Lines) - 1, Impl: d.Impl, Model: mo[i][0],
+					Detail: detail, Sig: sigOf(ck.Prop, "model=impl", d.Line)})
+			}
+		}
+		compared += derivedCompared
+		agree += derivedAgree
 	}
 
 	// proof obligations
@@ -577,6 +616,7 @@ func runCheck(ctx *Ctx, ck *Check, auditPath, factsStatus, evidencePath string) 
 		"input_distribution":            tagCount,
 		"operation_outcomes":            answerKinds,
 		"history_step_outcomes":         histStats,
+		"command_transitions_compared_with_model": derivedCompared,
 		"exhaustive":                    ck.Exhaustive,
 		"facts_status":                  factsStatus,
 	}
